@@ -54,6 +54,7 @@ func checkC06(r *Report, p *Program) {
 	oneWritePerChild(r, p, "R06.6")
 	deleteTable(r, p, "R06.7")
 	createTable(r, p, "R06.10")
+	r20_1(r, p) // the strategy map lives as long as the hosted controller: it is rebuilt exactly when the spec differs
 	strategyMapTable(r, p, "R06.8")
 	lastAppliedIsHookAnswer(r, p, "R06.9")
 	// an attachment the decorator creates is recognised as its own on the next sync (marker stamped) — else no method ever applies to it (shared with C16)
